@@ -265,6 +265,8 @@ var (
 			"/pub/a", "/pst/a?x=1", "/sec/a?b=2&a=1", "/hst/a", "/any/a", "?q=1", "/x%20y", "%zz", "",
 			"http://other.example.com/pst/a?z=1", "//evil/path", "/a b", "/pub/a#frag", "/any/a?x=1;y=2", "any/a", "/sec/a?",
 			"/hst/a?%zz=1", "*", "/",
+			// url.Parse refuses these: used as received since fix: d3f6cd7
+			"/pst/a%zz", "/a%2Fb%zz?x=1", "/any/a?q=%zz", "/sec/a%?y=2", "%zz?x=1",
 		},
 		"X-Forwarded-Path":   {"/pst/a", "/x", ""},
 		"X-Forwarded-Method": {"POST", "GET", "DELETE", "", "get"},
@@ -1237,7 +1239,7 @@ type c09Oracle struct {
 	host     string
 	sent     [][2]string // header lines as sent
 	parsed   [][2]string // net/http's parse: canonical key, value (sorted by key, arrival order per key)
-	uri      *[3]string // url.Parse(X-Forwarded-Uri): EscapedPath(), Query().Encode(), RawQuery
+	uri      *[3]string // url.Parse(X-Forwarded-Uri): EscapedPath(), Query().Encode(), RawQuery; nil: does not parse
 	parseErr string
 }
 
